@@ -396,4 +396,162 @@ theorem left_machine_eq_spec (L R : List Tuple) (hd : DistinctKeys lk L) (g n : 
       rw [hnext]
       exact cmp_ready lk rk ok ls.length ls rfl rs l r (g + 1) _ n hd (by simp at hg; omega) (by simp; omega) (by omega)
 
+-- ---------------------------------------------------------------- leftSpec ~ left outer nested-loop join
+
+theorem fillMatch_spec (l : Tuple) : ∀ rs : List Tuple,
+    (fillMatch lk rk l rs).1 ++ ((fillMatch lk rk l rs).2.1.toList ++ (fillMatch lk rk l rs).2.2) = rs ∧
+    (∀ b ∈ (fillMatch lk rk l rs).1, rk b = lk l) ∧
+    (∀ b, ((fillMatch lk rk l rs).2.1.toList ++ (fillMatch lk rk l rs).2.2).head? = some b → rk b ≠ lk l)
+  | [] => by simp [fillMatch]
+  | r :: rs => by
+    have ih := fillMatch_spec l rs
+    rcases hfm : fillMatch lk rk l rs with ⟨b, n, rest⟩
+    rw [hfm] at ih
+    obtain ⟨h1, h2, h3⟩ := ih
+    by_cases hc : (ccmp (lk l) (rk r) == 0) = true
+    · have hk : rk r = lk l := (ccmp_zero.mp (by simpa using hc)).symm
+      simp only [fillMatch, hc, if_true, hfm, List.cons_append, List.mem_cons]
+      simp only at h1 h2 h3
+      refine ⟨by rw [h1], ?_, h3⟩
+      intro x hx
+      rcases hx with rfl | hx
+      · exact hk
+      · exact h2 x hx
+    · have hk : rk r ≠ lk l := fun e => hc (by simp [ccmp_zero.mpr e.symm])
+      simp only [fillMatch, hc, Bool.false_eq_true, if_false, List.nil_append, Option.toList_some, List.singleton_append,
+        List.not_mem_nil, false_imp_iff, implies_true, List.head?_cons, Option.some.injEq, true_and]
+      intro x hx; subst hx; exact hk
+
+theorem leftNlj_cons (a : Tuple) (L R : List Tuple) :
+    leftNlj ok (a :: L) R = (if (R.filter (ok a)).isEmpty then [(a, none)] else (R.filter (ok a)).map (fun b => (a, some b))) ++ leftNlj ok L R := by
+  simp [leftNlj]
+
+theorem leftNlj_nil_right : ∀ L : List Tuple, leftNlj ok L [] = L.map (fun a => (a, none))
+  | [] => rfl
+  | a :: L => by rw [leftNlj_cons, leftNlj_nil_right L]; simp
+
+theorem leftNlj_drop_right : ∀ (L r1 r2 : List Tuple), (∀ a ∈ L, ∀ b ∈ r1, ok a b = false) →
+    leftNlj ok L (r1 ++ r2) = leftNlj ok L r2
+  | [], _, _, _ => rfl
+  | a :: L, r1, r2, h => by
+    rw [leftNlj_cons, leftNlj_cons, List.filter_append, filter_none (ok a) r1 (h a (by simp)), List.nil_append,
+      leftNlj_drop_right L r1 r2 (fun x hx => h x (by simp [hx]))]
+
+theorem perm_if_empty {α β : Type} (g : α → β) (x : β) {ms ms' : List α} (h : ms.Perm ms') :
+    (if ms.isEmpty then [x] else ms.map g).Perm (if ms'.isEmpty then [x] else ms'.map g) := by
+  cases ms' with
+  | nil => have := h.eq_nil; subst this; exact List.Perm.refl _
+  | cons a as =>
+    cases ms with
+    | nil => have := h.symm.eq_nil; cases this
+    | cons b bs => simpa using h.map g
+
+/-- strictly increasing join keys -/
+def StrictBy (key : Tuple → Cell) (L : List Tuple) : Prop := L.Pairwise (fun a b => clt (key a) (key b) = true)
+
+theorem leftSpec_perm (extra : Tuple → Tuple → Bool) :
+    ∀ (g : Nat) (L R : List Tuple), L.length + R.length + 1 ≤ g → StrictBy lk L → SortedBy rk R →
+      (leftSpec lk rk (fun a b => keyEq (lk a) (rk b) && extra a b) g L R).Perm
+        (leftNlj (fun a b => keyEq (lk a) (rk b) && extra a b) L R) := by
+  intro g
+  induction g with
+  | zero => intro L R h; omega
+  | succ g ih =>
+    intro L R hg hL hR
+    have hokf : ∀ a b, (clt (lk a) (rk b) = true ∨ clt (rk b) (lk a) = true) → (keyEq (lk a) (rk b) && extra a b) = false := by
+      intro a b h; rw [keyEq_false_of_clt h]; rfl
+    cases L with
+    | nil => simp [leftSpec, leftNlj]
+    | cons l ls =>
+      cases R with
+      | nil => rw [leftNlj_nil_right]; simp [leftSpec]
+      | cons r rs =>
+        have hLt := List.pairwise_cons.mp hL
+        have hRt := List.pairwise_cons.mp hR
+        simp only [List.length_cons] at hg
+        by_cases hlt : ccmp (lk l) (rk r) < 0
+        · have hl : clt (lk l) (rk r) = true := ccmp_neg.mp hlt
+          simp only [leftSpec, hlt, if_true]
+          rw [leftNlj_cons, filter_none _ (r :: rs) (by
+            intro b hb
+            simp only [List.mem_cons] at hb
+            rcases hb with rfl | hb
+            · exact hokf l b (Or.inl hl)
+            · exact hokf l b (Or.inl (clt_of_lt_of_le hl (hRt.1 b hb))))]
+          simp only [List.isEmpty_nil, if_true, List.singleton_append]
+          exact List.Perm.cons _ (ih ls (r :: rs) (by simp; omega) hLt.2 hR)
+        · by_cases heq : (ccmp (lk l) (rk r) == 0) = true
+          · have hz : lk l = rk r := ccmp_zero.mp (by simpa using heq)
+            obtain ⟨hf1, hf2, hf3⟩ := fillMatch_spec lk rk l rs
+            simp only [leftSpec, hlt, if_false, heq, if_true]
+            generalize hb : (fillMatch lk rk l rs).1 = b at *
+            generalize hrest : (fillMatch lk rk l rs).2.1.toList ++ (fillMatch lk rk l rs).2.2 = rest at *
+            have hsubR : rest.Sublist rs := by rw [← hf1]; exact List.sublist_append_right _ _
+            have hRR : SortedBy rk rest := List.Pairwise.sublist hsubR hRt.2
+            have hrestGt : ∀ x ∈ rest, clt (lk l) (rk x) = true :=
+              sorted_all_gt rk (lk l) rest hRR (fun x hx => by rw [hz]; exact hRt.1 x (hsubR.subset hx)) hf3
+            have hR2 : r :: rs = (r :: b) ++ rest := by rw [← hf1]; rfl
+            have hfl : ((r :: b) ++ rest).filter (fun x => keyEq (lk l) (rk x) && extra l x) =
+                (r :: b).filter (fun x => keyEq (lk l) (rk x) && extra l x) := by
+              rw [List.filter_append, filter_none _ rest (fun x hx => hokf l x (Or.inl (hrestGt x hx))), List.append_nil]
+            rw [hR2, leftNlj_cons, hfl]
+            apply List.Perm.append
+            · exact perm_if_empty _ _ ((List.perm_append_singleton r b).filter _)
+            · rw [leftNlj_drop_right (fun a b => keyEq (lk a) (rk b) && extra a b) ls (r :: b) rest (by
+                intro a ha x hx
+                have hxk : rk x = lk l := by
+                  simp only [List.mem_cons] at hx
+                  rcases hx with rfl | hx
+                  · exact hz.symm
+                  · exact hf2 x hx
+                exact hokf a x (Or.inr (by rw [hxk]; exact hLt.1 a ha)))]
+              exact ih ls rest (by have := hsubR.length_le; omega) hLt.2 hRR
+          · have hgt : ccmp (lk l) (rk r) > 0 := by
+              have : ¬ ccmp (lk l) (rk r) = 0 := by simpa using heq
+              unfold ccmp at *; split at * <;> (try split at *) <;> simp_all
+            have hr : clt (rk r) (lk l) = true := ccmp_pos.mp hgt
+            simp only [leftSpec, hlt, if_false, heq, Bool.false_eq_true]
+            have := leftNlj_drop_right (fun a b => keyEq (lk a) (rk b) && extra a b) (l :: ls) [r] rs (by
+              intro a ha x hx
+              simp only [List.mem_singleton] at hx
+              subst hx
+              simp only [List.mem_cons] at ha
+              rcases ha with rfl | ha
+              · exact hokf a x (Or.inr hr)
+              · exact hokf a x (Or.inr (clt_trans hr (hLt.1 a ha))))
+            simp only [List.singleton_append] at this
+            rw [this]
+            exact ih (l :: ls) rs (by simp; omega) hL hRt.2
+
+theorem distinct_of_strict (L : List Tuple) (h : StrictBy lk L) : DistinctKeys lk L := by
+  unfold StrictBy at h
+  unfold DistinctKeys
+  exact h.imp (fun {a b} hab e => by
+    have := ccmp_zero.mp e
+    rw [this, clt_irrefl] at hab
+    cases hab)
+
+theorem length_leftNlj_le : ∀ (L R : List Tuple), (leftNlj ok L R).length ≤ L.length * (R.length + 1)
+  | [], _ => by simp [leftNlj]
+  | a :: L, R => by
+    rw [leftNlj_cons, List.length_append, List.length_cons, Nat.succ_mul]
+    have ih := length_leftNlj_le L R
+    have h1 : (if (R.filter (ok a)).isEmpty then [(a, none)] else (R.filter (ok a)).map (fun b => (a, some b))).length ≤ R.length + 1 := by
+      split
+      · simp
+      · simp only [List.length_map]; have := List.length_filter_le (ok a) R; omega
+    omega
+
+/-- machine = left outer nested-loop join up to order, for strictly increasing left keys -/
+theorem left_machine_perm (extra : Tuple → Tuple → Bool) (L R : List Tuple) (hL : StrictBy lk L) (hR : SortedBy rk R) :
+    (leftMergeJoin lk rk (fun a b => keyEq (lk a) (rk b) && extra a b) L R).Perm
+      (leftNlj (fun a b => keyEq (lk a) (rk b) && extra a b) L R) := by
+  have hp := leftSpec_perm lk rk extra (L.length + R.length + 1) L R (Nat.le_refl _) hL hR
+  have hlen := hp.length_eq
+  have hb := length_leftNlj_le (fun a b => keyEq (lk a) (rk b) && extra a b) L R
+  have hm : L.length * (R.length + 1) ≤ (L.length + 1) * (R.length + 1) := Nat.mul_le_mul_right _ (Nat.le_succ _)
+  unfold leftMergeJoin
+  rw [left_machine_eq_spec lk rk _ L R (distinct_of_strict lk L hL) (L.length + R.length + 1) _ (Nat.le_refl _) (by omega)]
+  exact hp
+
 end DoltVerif.Query
